@@ -16,6 +16,10 @@ Monitor shape
 * ``mimetypes`` state is process-global, so every MIME configuration (default, emptied, three hostile ones)
   has its own worker processes (``pool.run_cases(..., init=<config>)``); the verdict is computed in the parent
   from observations, including the cross-configuration comparison.
+* In-process *sequences* of MIME-database changes (``k == "seq"`` cases, own worker processes): the same path strings are
+  asked again after every change of the database — whole configurations swapped in both directions (types appear,
+  types vanish) and single ``add_type`` / removal steps — and every answer pair is judged like any other: the two entry
+  points must agree in *every* state of the process, not only in a fresh one, and documented extensions must not move.
 * ``read_file`` dispatch: a real tiny temp file per routed extension (case variants, dotted / spaced /
   unicode names), ``list(read_file(p))`` with the stubs armed; the stub hit is compared with the table and
   with what ``get_extractor(str(p))`` returned.
@@ -151,6 +155,23 @@ def _apply_mime_config(cfg: dict) -> None:
         mimetypes._db.suffix_map[k] = v
     for k, v in cfg.get("enc", {}).items():
         mimetypes._db.encodings_map[k] = v
+
+
+def _apply_mime_step(step: dict) -> None:
+    """One change of the process-wide MIME database: a whole configuration, or single types added / removed."""
+    import mimetypes
+
+    if "cfg" in step:
+        _apply_mime_config(step["cfg"])
+        return
+    for typ, ext in step.get("add", []):
+        mimetypes.add_type(typ, ext)
+    db = mimetypes._db
+    for ext in step.get("remove", []):
+        for strict in (True, False):
+            typ = db.types_map[strict].pop(ext, None)
+            if typ is not None and ext in db.types_map_inv[strict].get(typ, []):
+                db.types_map_inv[strict][typ].remove(ext)
 
 
 def work_init(init: dict) -> None:
@@ -342,6 +363,23 @@ def work(case: dict) -> dict:
                 pass
             out.append({"res": res, "hits": h, "sup": s, "get": e})
         base["d"] = out
+        return base
+    if k == "seq":
+        mt = _S["mimetypes"]
+        out = []
+        try:
+            for step in case["steps"]:
+                _apply_mime_step(step)
+                table = {}
+                r = []
+                for p in case["paths"]:
+                    s_, e_ = _route_one(p)
+                    r.append([s_, table.setdefault(e_, len(table))])
+                out.append({"r": r, "t": [x for x, _ in sorted(table.items(), key=lambda kv: kv[1])],
+                            "canary": {n: mt.guess_type(n)[0] for n in step.get("canary", {})}})
+        finally:
+            _apply_mime_config(_S["cfg"])
+        base["seq"] = out
         return base
     return {"_harness_error": "unknown case kind " + str(k)}
 
@@ -574,6 +612,106 @@ def _dispatch_items(run):
     return items
 
 
+SEQ_TYPES = ["text/plain", "application/pdf", "text/html", "application/zip", "message/rfc822", "application/x-verif-unknown"]
+
+
+def _sequence_cases(run, cfgs, canary, wl, universe):
+    """In-process sequences: the same path strings asked after every change of the MIME database (both directions)."""
+    import mimetypes
+
+    rng = run.rng
+    by_name = {c["name"]: {k: v for k, v in c.items() if not k.startswith("_")} for c in cfgs}
+    idx: dict = {}
+    for i, g in enumerate(wl.group):
+        idx.setdefault(g, []).append(i)
+
+    def pick(g, n):
+        lst = idx.get(g, [])
+        return rng.sample(lst, min(n, len(lst)))
+    mapped = {k.lstrip(".").lower() for k in list(mimetypes.suffix_map) + list(mimetypes.encodings_map)} | {"vsfx", "venc"}
+    for c in cfgs:
+        mapped |= {k.lstrip(".") for k in c.get("suffix", {})} | {k.lstrip(".") for k in c.get("enc", {})}
+    unrouted = [e for e in universe if e not in DOC_TABLE and e.isascii() and e.isalnum() and len(e) <= 8 and e not in mapped]
+    cases = []
+    for sid in range(run.n(6, 40)):
+        sel = (pick("G", run.n(60, 200)) + pick("C", run.n(150, 500)) + pick("A", 30) + pick("B-dir", 30) + pick("E", 20) + pick("H", 20)
+               + pick("F", 40) + pick("D", 20))
+        paths = [wl.paths[i] for i in sel]
+        inc = []
+        for e in rng.sample(unrouted, min(5, len(unrouted))) + [f"sq{sid}n{j}" for j in range(2)]:
+            names = ["f." + e, "dir.pdf/a.b." + e, "my report." + e.upper()]
+            paths += names
+            inc.append((rng.choice(SEQ_TYPES), "." + e, names[0]))
+        order = [rng.choice(sorted(by_name)) for _ in range(rng.randint(4, 7))]
+        # both directions at least once per sequence: types present -> emptied -> present again
+        order[rng.randrange(len(order))] = "empty"
+        order = [rng.choice(("default", "hostile_keys"))] + order + [rng.choice(("default", "hostile_only", "hostile_keys"))]
+        steps = []
+        for name in order:
+            steps.append({"name": name, "cfg": by_name[name], "canary": canary[name]})
+            live = []
+            for _ in range(rng.randint(0, 3)):
+                if live and rng.random() < 0.5:
+                    t, e, probe = live.pop(rng.randrange(len(live)))
+                    steps.append({"name": "type-removed", "remove": [e], "canary": {probe: None}})
+                else:
+                    t, e, probe = rng.choice(inc)
+                    if any(x[1] == e for x in live):
+                        continue
+                    live.append((t, e, probe))
+                    steps.append({"name": "type-added", "add": [[t, e]], "canary": {probe: t}})
+        cases.append({"k": "seq", "id": f"s{sid}", "steps": steps, "paths": paths})
+    return cases
+
+
+def _judge_sequences(run, seq_cases, res, ctx):
+    """Every (state, path) observation of a sequence is judged like a fresh one; flips of the decision between consecutive
+    states are counted as evidence that the sequences really moved the MIME fallback in both directions."""
+    n_steps = n_eval = up = down = 0
+    for c in seq_cases:
+        o = res.get(c["id"])
+        if not o or "seq" not in o or len(o["seq"]) != len(c["steps"]):
+            run.inconclusive_cases += 1
+            run.extras.setdefault("bad_observations", []).append({"config": "sequence", "case": c["id"], "obs": str(o)[:400]})
+            continue
+        inv_doc: dict = {}
+        for pub, ident in o["doc"].items():
+            if ":" in ident and ident.split(":")[0] not in ("RAISED", "AMBIGUOUS"):
+                inv_doc.setdefault(ident, pub)
+        prev = None
+        prev_name = "start"
+        for j, (step, so) in enumerate(zip(c["steps"], o["seq"])):
+            wrong = {n: (so["canary"].get(n), w) for n, w in step.get("canary", {}).items() if so["canary"].get(n) != w}
+            if wrong:
+                run.inconclusive(f"sequence {c['id']} step {j} ({step['name']}): MIME change not in force: {wrong}")
+                prev = None
+                continue
+            n_steps += 1
+            cfg_like = {"name": step["name"], "seq_steps": [{k: v for k, v in st.items() if k != "canary"} for st in c["steps"][: j + 1]]}
+            cur = []
+            for pi, (p, (s_, ti)) in enumerate(zip(c["paths"], so["r"])):
+                e = so["t"][ti]
+                cls, ext, hidden, strong, d = _judge_route(run, cfg_like, p, (s_, e), inv_doc, ctx, where="router-after-mime-change")
+                cur.append(d)
+                n_eval += 1
+                flip = "="
+                if prev is not None and prev[pi][0] != d[0] and not strong:
+                    flip = "+" if d[0] == 1 else "-"
+                    up += 1 if d[0] == 1 else 0
+                    down += 1 if d[0] == 0 else 0
+                run.case(f"seq|{prev_name}>{step['name']}|{cls}|{hidden}|{flip}|{d[0]}|{d[1]}")
+            prev = cur
+            prev_name = step["name"]
+    run.count("sequence_steps", n_steps)
+    run.count("sequence_route_evaluations", n_eval)
+    run.count("sequence_decisions_flipped_to_supported", up)
+    run.count("sequence_decisions_flipped_to_unsupported", down)
+    run.require("sequence_steps", n_steps, run.n(40, 250))
+    run.require("sequence_route_evaluations", n_eval, run.n(10000, 100000))
+    run.require("sequence_decisions_flipped_to_supported", up, run.n(50, 500))
+    run.require("sequence_decisions_flipped_to_unsupported", down, run.n(50, 500))
+
+
 # --------------------------------------------------------------------------------------------------
 # parent side: oracle
 # --------------------------------------------------------------------------------------------------
@@ -700,6 +838,11 @@ def main(run):
         t = threading.Thread(target=_run_config, args=(cfg, cases, results[cfg["name"]], errors), daemon=True)
         t.start()
         threads.append(t)
+    seq_cases = _sequence_cases(run, cfgs, canary, wl, universe)
+    seq_res: dict = {}
+    t = threading.Thread(target=_run_config, args=({"name": "default", "_workers": 2}, seq_cases, seq_res, errors), daemon=True)
+    t.start()
+    threads.append(t)
     for t in threads:
         t.join()
     for e in errors:
@@ -815,6 +958,9 @@ def main(run):
         elif differs:
             mime_dep += 1
     run.count("unrouted_paths_whose_decision_depends_on_mime_db", mime_dep)
+
+    # -------------------------------------------------------------------- in-process sequences of MIME-database changes
+    _judge_sequences(run, seq_cases, seq_res, Ctx())
 
     # -------------------------------------------------------------------- evidence and thresholds
     for k, v in sorted(ctx.counters.items()):
@@ -938,7 +1084,10 @@ def replay(run, doc):
     paths = case.get("paths") or ([case["path"]] if "path" in case else [])
     for cfg in cfgs:
         init = {k: v for k, v in cfg.items() if not k.startswith("_")}
-        if kind == "dispatch":
+        if cfg.get("seq_steps"):
+            init = {}
+            cases = [{"k": "seq", "id": "s0", "steps": cfg["seq_steps"], "paths": paths}]
+        elif kind == "dispatch":
             cases = [{"k": "dispatch", "id": "d0", "items": [case["item"]]}]
         else:
             cases = [{"k": "route", "id": "r0", "paths": paths}]
@@ -947,7 +1096,14 @@ def replay(run, doc):
             for pub, ident in (obs.get("doc") or {}).items():
                 inv.setdefault(ident, pub)
             ctx = Ctx()
-            if "r" in obs:
+            if "seq" in obs:
+                for j, so in enumerate(obs["seq"]):
+                    for p, (s_, ti) in zip(paths, so["r"]):
+                        print(f"[after step {j}: {cfg['seq_steps'][j].get('name')}] {p!r}: is_supported_file={s_} get_extractor={so['t'][ti]} model={model(p)}")
+                        if j == len(obs["seq"]) - 1:
+                            _judge_route(run, cfg, p, (s_, so["t"][ti]), inv, ctx, where="router-after-mime-change")
+                    run.case(f"replay|seq|{j}")
+            elif "r" in obs:
                 for p, (s, ti) in zip(paths, obs["r"]):
                     e = obs["t"][ti]
                     print(f"[{cfg['name']}] {p!r}: is_supported_file={s} get_extractor={e} model={model(p)}")
